@@ -17,6 +17,7 @@ import (
 
 	"verifsim/simcore"
 	"verifsim/simsched"
+	"verifsim/simyield"
 )
 
 type Phase struct {
@@ -31,6 +32,7 @@ type SubScript struct {
 }
 
 type Plan struct {
+	Yields  bool        `json:"yields"`  // park actors at the yield points inserted into event/feed*.go (before Lock, after Unlock, before channel ops)
 	Generic bool        `json:"generic"` // FeedOf[int] instead of Feed
 	Senders [][]int     `json:"senders"` // values per sender, globally unique
 	Subs    []SubScript `json:"subs"`
@@ -38,7 +40,7 @@ type Plan struct {
 }
 
 func Gen(r *simcore.Rand, tier string) any {
-	p := &Plan{Generic: r.Bool(0.5)}
+	p := &Plan{Generic: r.Bool(0.5), Yields: r.Bool(0.7)}
 	ns := r.Range(1, 3)
 	v := 1
 	for i := 0; i < ns; i++ {
@@ -60,6 +62,9 @@ func Gen(r *simcore.Rand, tier string) any {
 		p.Subs = append(p.Subs, s)
 	}
 	p.Tape = r.Tape(40 + 12*v*nsub)
+	if p.Yields {
+		p.Tape = r.Tape(120 + 60*v*nsub)
+	}
 	return p
 }
 
@@ -132,6 +137,11 @@ func Shrink(pl any) []any {
 	if p.Generic {
 		q := clone()
 		q.Generic = false
+		out = append(out, q)
+	}
+	if p.Yields {
+		q := clone()
+		q.Yields = false
 		out = append(out, q)
 	}
 	for _, t := range simcore.ShrinkTape(p.Tape) {
@@ -214,12 +224,22 @@ func Run(t *testing.T, pl any) *simcore.Result {
 			f = &reflFeed{}
 		}
 		sched = simsched.New(p.Tape, simsched.ModeWait)
+		var actors sync.Map // goroutine id -> actor name
+		if p.Yields {
+			simyield.Set(func(label string) {
+				if name, ok := actors.Load(simsched.GoID()); ok {
+					sched.Gate(name.(string) + ":y:" + label)
+				}
+			})
+			defer simyield.Set(nil)
+		}
 		quit := make(chan struct{})
 		var sendersLeft = len(p.Senders)
 		var qmu sync.Mutex
 		for i, vals := range p.Senders {
 			i, vals := i, vals
 			sched.Go(fmt.Sprintf("S%d", i), func() {
+				actors.Store(simsched.GoID(), fmt.Sprintf("S%d", i))
 				for _, v := range vals {
 					sched.Gate(fmt.Sprintf("S%d:send:%d", i, v))
 					rec := &sendRec{v: v}
@@ -248,6 +268,7 @@ func Run(t *testing.T, pl any) *simcore.Result {
 			}
 			base := nextID - len(sc.Phases)
 			sched.Go(fmt.Sprintf("R%d", i), func() {
+				actors.Store(simsched.GoID(), fmt.Sprintf("R%d", i))
 				for pi, ph := range sc.Phases {
 					rec := h.subs[base+pi]
 					ch := make(chan int, sc.Buf)
